@@ -26,30 +26,40 @@ Definition run_thl (x : stree * otree * costs) :=
   let '(St, Ot, c) := x in
   let all := tags (reconcile_thl St c RALL Ot) in
   (all, tags (reconcile_thl St c RANY Ot), table_vals St (thl_table St c RALL Ot),
-   tags (reconcile_exhaustive c RALL Ot), gen_all Ot).
-Definition out_t := (list rtree * list rtree * list (list ext) * list rtree * list rtree)%type.
+   tags (reconcile_exhaustive c RALL Ot), gen_all Ot, tags (reconcile_exhaustive c RANY Ot)).
+Definition out_t := (list rtree * list rtree * list (list ext) * list rtree * list rtree * list rtree)%type.
+(* ANY: the implementation's single answer must belong to the model's ALL set (which of the optima is kept depends
+   on the enumeration order; the model's own ANY answer must be a singleton too) *)
+Definition any_ok (model_all model_any impl_any : list rtree) : bool :=
+  match impl_any with
+  | [] => match model_all with [] => true | _ => false end
+  | [r] => existsb (rtree_eqb r) model_all && match model_any with [_] => true | _ => false end
+  | _ => false
+  end.
 (* a = model, b = implementation *)
 Definition thl_eqb (a b : option out_t) : bool :=
   match a, b with
-  | Some (a1, a2, a3, a4, a5), Some (b1, b2, b3, b4, b5) =>
+  | Some (a1, a2, a3, a4, a5, a6), Some (b1, b2, b3, b4, b5, b6) =>
       set_eqb rtree_eqb a1 b1
       && (match b2 with [] => match a1 with [] => true | _ => false end
                       | [r] => existsb (rtree_eqb r) a1 | _ => false end)
       && list_eqb (list_eqb ext_eqb) a3 b3
       && set_eqb rtree_eqb a4 b4
       && set_eqb rtree_eqb a5 b5
+      && any_ok a4 a6 b6
   | _, _ => false
   end.
 (* outside the coherent region the ANY answer need not belong to the ALL set: only its presence is compared *)
 Definition thl_eqb_weak (a b : option out_t) : bool :=
   match a, b with
-  | Some (a1, a2, a3, a4, a5), Some (b1, b2, b3, b4, b5) =>
+  | Some (a1, a2, a3, a4, a5, a6), Some (b1, b2, b3, b4, b5, b6) =>
       set_eqb rtree_eqb a1 b1
       && (match b2 with [] => match a1 with [] => true | _ => false end
                       | [_] => match a1 with [] => false | _ => true end | _ => false end)
       && list_eqb (list_eqb ext_eqb) a3 b3
       && set_eqb rtree_eqb a4 b4
       && set_eqb rtree_eqb a5 b5
+      && any_ok a4 a6 b6
   | _, _ => false
   end.
 """
@@ -106,6 +116,7 @@ def impl_thl(c):
         allr = sorted((B.canon(o) for o in reconcile_thl(B.input, RetentionPolicy.ALL)), key=json.dumps)
         anyr = [B.canon(o) for o in reconcile_thl(B.input, RetentionPolicy.ANY)]
         exh = sorted((B.canon(o) for o in reconcile_exhaustive(B.input, RetentionPolicy.ALL)), key=json.dumps)
+        exh_any = [B.canon(o) for o in reconcile_exhaustive(B.input, RetentionPolicy.ANY)]
         gen = [B.canon(o) for o in generate_all(B.input)]
         cost = R.ext_of(min(o.cost() for o in reconcile_thl(B.input, RetentionPolicy.ALL))) if allr else None
     except Exception as e:  # the property: neither solver fails on a well-formed input
@@ -117,7 +128,7 @@ def impl_thl(c):
         table = [[R.ext_of(t[n][s].value()) for s in snodes] for n in B.otree.traverse("preorder")]
     except Exception:
         table = None  # helper renamed/re-shaped: secondary comparison skipped
-    return {"all": allr, "any": anyr, "exh": exh, "gen": gen, "cost": cost, "table": table}
+    return {"all": allr, "any": anyr, "exh": exh, "gen": gen, "cost": cost, "table": table, "exh_any": exh_any}
 
 
 def oracle_thl(c, r):
@@ -145,6 +156,8 @@ def oracle_thl(c, r):
             return False, f"{name}: returned {len(got)} optimal solutions, the optimal set has {len(opt)}"
     if len(r["any"]) != 1 or json.dumps(r["any"][0]) not in opt:
         return False, "any: must return exactly one optimal solution"
+    if "exh_any" in r and (len(r["exh_any"]) != 1 or json.dumps(r["exh_any"][0]) not in opt):
+        return False, "exhaustive solver, any: must return exactly one optimal solution"
     return True, "results are valid, optimal, complete"
 
 
@@ -156,7 +169,8 @@ def enc_out(c, r):
         raise RuntimeError("table helper unavailable")  # handled by caller through enc_out_soft
     return copt(cpair(clist(R.enc_rtree(x) for x in r["all"]), clist(R.enc_rtree(x) for x in r["any"]),
                       clist(clist(R.enc_ext(v) for v in row) for row in table),
-                      clist(R.enc_rtree(x) for x in r["exh"]), clist(R.enc_rtree(x) for x in r["gen"])))
+                      clist(R.enc_rtree(x) for x in r["exh"]), clist(R.enc_rtree(x) for x in r["gen"]),
+                      clist(R.enc_rtree(x) for x in r.get("exh_any", []))))
 
 
 def nontrivial(c, r):
